@@ -1,14 +1,119 @@
-//! Operations for C15 (see ops.rs). Fill in: return Some(outcome) for the ops this module owns.
-use crate::js::{self, big, int};
-use crate::ops::{utc, FS};
+//! Operations for C15: the bundled file-system time-zone provider (`FsTzdbProvider`) through the
+//! `TimeZoneProvider` trait, and an independent reading of the same TZif files with the `tzif` crate's
+//! *parser only* (no lookup logic of src/tzdb.rs is used to produce the tables).
+//!
+//! Time points are `{d, s, ns}` = epoch day, second of day, nanosecond of second (TLC ints are 32-bit).
+use crate::js::{self, int};
 use crate::proj::*;
 use serde_json::{json, Value};
-use temporal_rs::options::*;
-use temporal_rs::*;
+use std::cell::RefCell;
+use temporal_rs::iso::{IsoDate, IsoDateTime, IsoTime};
+use temporal_rs::provider::TimeZoneProvider;
+use temporal_rs::tzdb::FsTzdbProvider;
+use tzif::data::posix::{PosixTzString, TransitionDate, TransitionDay};
+use tzif::data::tzif::TzifData;
+
+pub const ZONEINFO: &str = "/usr/share/zoneinfo";
+
+thread_local! {
+    /// the provider under test; `Tzdb.fresh` replaces it (its cache is the state C15 is about)
+    static PROV: RefCell<FsTzdbProvider> = RefCell::new(FsTzdbProvider::default());
+}
+
+pub fn fresh() { PROV.with(|p| *p.borrow_mut() = FsTzdbProvider::default()); }
+
+// ---------- glue: points <-> nanoseconds ----------
+pub fn point_ns(v: &Value) -> i128 {
+    (js::i(v, "d") as i128 * 86_400 + js::i(v, "s") as i128) * 1_000_000_000 + v.get("ns").and_then(|x| x.as_i64()).unwrap_or(0) as i128
+}
+pub fn ns_point(ns: i128) -> Value {
+    let sec = ns.div_euclid(1_000_000_000);
+    json!({"d": int(sec.div_euclid(86_400) as i64), "s": int(sec.rem_euclid(86_400) as i64), "ns": int(ns.rem_euclid(1_000_000_000) as i64)})
+}
+pub fn sec_point(sec: i64) -> (i64, i64) { (sec.div_euclid(86_400), sec.rem_euclid(86_400)) }
+
+fn arg_iso_dt(v: &Value) -> temporal_rs::TemporalResult<IsoDateTime> {
+    let mut d = IsoDate::default();
+    d.year = js::i(v, "y") as i32; d.month = js::i(v, "m") as u8; d.day = js::i(v, "d") as u8;
+    let mut t = IsoTime::default();
+    t.hour = js::i(v, "h") as u8; t.minute = js::i(v, "mi") as u8; t.second = js::i(v, "s") as u8;
+    t.millisecond = js::i(v, "ms") as u16; t.microsecond = js::i(v, "us") as u16; t.nanosecond = js::i(v, "ns") as u16;
+    IsoDateTime::new(d, t)
+}
+
+// ---------- the table, from the tzif crate's parser ----------
+fn rule_json(r: &TransitionDate) -> Value {
+    let t = int(r.time.0);
+    match r.day {
+        TransitionDay::Mwd(m, w, d) => json!({"k": "M", "m": m, "w": w, "d": d, "t": t}),
+        TransitionDay::NoLeap(n) => json!({"k": "J", "n": n, "t": t}),
+        TransitionDay::WithLeap(n) => json!({"k": "N", "n": n, "t": t}),
+    }
+}
+fn footer_json(f: &Option<PosixTzString>) -> Value {
+    match f {
+        None => json!({"kind": "none"}),
+        // POSIX offsets are seconds WEST of UTC; the table uses seconds east
+        Some(p) => match &p.dst_info {
+            None => json!({"kind": "fixed", "std": int(-p.std_info.offset.0)}),
+            Some(d) => json!({"kind": "rule", "std": int(-p.std_info.offset.0), "dst": int(-d.variant_info.offset.0),
+                              "start": rule_json(&d.start_date), "end": rule_json(&d.end_date)}),
+        },
+    }
+}
+pub fn table_of(data: &TzifData) -> Result<Value, String> {
+    let db = data.data_block2.as_ref().ok_or("no v2+ data block")?;
+    let types: Vec<Value> = db.local_time_type_records.iter().map(|r| json!({"off": int(r.utoff.0), "dst": r.is_dst})).collect();
+    let mut trans = Vec::new();
+    for (i, t) in db.transition_times.iter().enumerate() {
+        let (d, s) = sec_point(t.0);
+        trans.push(json!({"d": int(d), "s": int(s), "ty": db.transition_types[i] + 1}));
+    }
+    Ok(json!({"types": types, "trans": trans, "footer": footer_json(&data.footer)}))
+}
+pub fn read_table(zone: &str) -> Result<Value, String> {
+    let path = std::path::Path::new(ZONEINFO).join(zone);
+    let data = tzif::parse_tzif_file(&path).map_err(|e| e.to_string())?;
+    table_of(&data)
+}
+
+/// Zone and Link names of tzdata.zi
+pub fn iana_names() -> Vec<String> {
+    let txt = std::fs::read_to_string(format!("{}/tzdata.zi", ZONEINFO)).expect("tzdata.zi");
+    let mut v = Vec::new();
+    for l in txt.lines() {
+        let p: Vec<&str> = l.split_whitespace().collect();
+        match p.first() { Some(&"Z") => v.push(p[1].to_string()), Some(&"L") => v.push(p[2].to_string()), _ => {} }
+    }
+    v.sort(); v.dedup();
+    v
+}
+
+fn offset(zone: &str, t: &Value) -> Value {
+    let ns = point_ns(t);
+    PROV.with(|p| run(|| p.borrow().get_named_tz_offset_nanoseconds(zone, ns), |o| json!({"off": int(o.offset)})))
+}
+fn local(zone: &str, l: &Value) -> Value {
+    PROV.with(|p| run(|| p.borrow().get_named_tz_epoch_nanoseconds(zone, arg_iso_dt(l)?),
+                      // the answer is a set of instants: projected in ascending order
+                      |v| { let mut ns: Vec<i128> = v.iter().map(|e| e.as_i128()).collect(); ns.sort();
+                            Value::Array(ns.into_iter().map(ns_point).collect()) }))
+}
 
 pub fn exec(op: &str, a: &Value) -> Option<Value> {
-    let _ = a;
-    match op {
-        _ => None,
-    }
+    Some(match op {
+        "Tzdb.fresh" => { fresh(); ok(json!(true)) }
+        "Tzdb.table" => match read_table(js::s(a, "zone")) { Ok(t) => ok(t), Err(_) => err("generic") },
+        "Tzdb.names" => ok(Value::Array(iana_names().iter().map(|n| p_chars(n)).collect())),
+        "Tzdb.offset" => offset(js::s(a, "zone"), &a["t"]),
+        "Tzdb.local" => local(js::s(a, "zone"), &a["local"]),
+        "Tzdb.check" => { let id: String = a["chars"].as_array().expect("chars").iter().map(|c| c.as_str().unwrap()).collect();
+                          PROV.with(|p| run_inf(|| p.borrow().check_identifier(&id), |b| json!(*b))) }
+        // a whole provider life: fresh provider, then the steps in order; answers in order
+        "Tzdb.session" => { fresh();
+                            let outs: Vec<Value> = a["steps"].as_array().expect("steps").iter()
+                                .map(|s| exec(s["op"].as_str().unwrap(), &s["args"]).unwrap_or(json!({"kind": "unknown-op"}))).collect();
+                            ok(Value::Array(outs)) }
+        _ => return None,
+    })
 }
